@@ -354,7 +354,22 @@ func main() {
 	c.rng = rand.New(rand.NewSource(c.seed))
 	c.open()
 	startWatchdog(c)
-	run(c)
+	func() {
+		// a panic that comes through library code from a call the family did not put under guard() is a finding about the
+		// library like any other: it is written as a panic event (the rest of the family's events is lost) and the trace
+		// goes to TLC. A panic with no library frame on the stack is a fault of the harness and stays fatal.
+		defer func() {
+			if r := recover(); r != nil {
+				site := panicSite()
+				if site == "" {
+					panic(r)
+				}
+				cd, _ := current.Load().(callDesc)
+				c.emitTo(0, panicEvent("unguarded call after "+cd.Fn, site, fmt.Sprint(r)))
+			}
+		}()
+		run(c)
+	}()
 	c.close()
 	total := 0
 	for _, n := range c.count {
